@@ -259,3 +259,29 @@ def _register_temperature_contracts():
 
 
 _register_temperature_contracts()
+
+
+@harness(prop="C02", target="geckolib.driver.accessor:GeckoTempStructAccessor._set_value", name="readonly_temperature_refuses")
+async def readonly_temperature_refuses(pos: int, celsius: bool, t: float, use_async: bool):
+    """temperature items without write permission (DisplayedTempG, RealSetPointG, ... are declared RW None) refuse
+    writes on both paths and emit nothing; with permission exactly one write is emitted"""
+    from contracts import c14_temp
+    from geckolib.driver.accessor import GeckoTempStructAccessor
+    requires(both(0 <= pos, pos + 2 <= 1024, 0.0 <= t, t <= 100.0))
+    for rw in (None, "ALL"):
+        s = c14_temp.TempStruct("C" if celsius else "F")
+        a = GeckoTempStructAccessor(s, "DisplayedTempG", pos, rw)
+        refused = False
+        try:
+            if use_async:
+                await a.async_set_value(t)
+            else:
+                a.value = t
+        except Exception:
+            refused = True
+        if rw is None:
+            ensures("write-without-permission-refused", refused)
+            ensures("no-device-write", len(s.calls) == 0)
+        else:
+            ensures("write-with-permission-emits-one-device-write", both(not refused, len(s.calls) == 1, s.calls[0][0] == pos, s.calls[0][1] == 2))
+    cover("reached-end", True)
